@@ -413,6 +413,31 @@ func (a *Analyzer) expandCtx(at *Atom, ctx *sumCtx) []*Atom {
 	case "forall":
 		inner := termAtom(at.Args[1], at.Site)
 		var out []*Atom
+		// a literal table (e.g. a slice of check closures run in a loop): the statement holds for each listed element
+		if coll := at.Args[0]; coll.Op == "array" && len(coll.Args) > 0 && len(coll.Args) <= 16 {
+			for _, el := range coll.Args {
+				m := map[string]*Term{bound.Key(): el}
+				inst := inner.Subst(m)
+				// a call through a listed closure is a call of that function with its captured values
+				dyn := map[string]*Term{}
+				for _, t := range inst.Args {
+					t.Walk(func(x *Term) {
+						if x.Op == "calldyn" && len(x.Args) > 0 && (x.Args[0].Op == "closure" || x.Args[0].Op == "func") {
+							if f := a.P.FuncByID[x.Args[0].Name]; f != nil {
+								args := append(append([]*Term{}, x.Args[1:]...), x.Args[0].Args...)
+								dyn[x.Key()] = mkCall(shortName(f), args)
+							}
+						}
+					})
+				}
+				if len(dyn) > 0 {
+					inst = inst.Subst(dyn)
+				}
+				inst.Site = at.Site
+				out = append(out, inst)
+			}
+			return out
+		}
 		for _, d := range a.expandCtx(inner, nil) {
 			out = append(out, &Atom{Pred: "forall", Args: []*Term{at.Args[0], atomTerm(d)}, Site: at.Site})
 		}
